@@ -89,7 +89,10 @@ type Case struct {
 	SubjectUID *UIDC
 	Exts       []ExtC
 
+	VersionField int // 0: v3 ([0] 2); 1: version field absent (labelled v1) ; 2: [0] 1 (labelled v2) - the extensions stay
+
 	// issuance
+	IssuerNoNull  bool // RSA issuer keys only: the issuer's SubjectPublicKeyInfo omits the NULL algorithm parameters
 	IssuerName    NameC
 	IssuerKeyKind string
 	IssuerKeyIdx  int
@@ -396,6 +399,10 @@ func genCase(t *rapid.T, signedAnchor bool) Case {
 	c.IssuerKeyKind = rapid.SampledFrom(issuerKinds).Draw(t, "isskind")
 	c.IssuerKeyIdx = rapid.IntRange(0, 5).Draw(t, "issidx")
 	c.SigAlg = rapid.IntRange(0, 2).Draw(t, "sigalg")
+	c.IssuerNoNull = rapid.IntRange(0, 2).Draw(t, "issnonull") == 0
+	if v := rapid.IntRange(0, 6).Draw(t, "versionfield"); v >= 5 {
+		c.VersionField = v - 4
+	}
 	c.IssuerEKU = rapid.IntRange(0, 4).Draw(t, "isseku")
 	c.IssuerSKI = rapid.IntRange(0, 1+len(skiPool)).Draw(t, "issski")
 	c.PISKI = rapid.IntRange(0, 1+len(skiPool)).Draw(t, "piski")
@@ -695,6 +702,7 @@ type World struct {
 	IssuerKey, PIKey, LeafKey, LogKey *keys.Key
 	Alg                               string
 	I, PI, PINoEKU                    []byte // certificates
+	IssuerSPKINoNull                  bool
 	SibKey                            *keys.Key
 	SibI                              []byte // sibling issuer certificate
 	IName, PISubject, IssuerOfP       pki.Name // IssuerOfP: the issuer name as written in the precertificate
@@ -777,6 +785,18 @@ func (w *World) tbsOf(c *Case, issuer pki.Name, exts []pki.Ext) []byte {
 		NotBefore: time.Unix(c.NotBefore, 0).UTC(), NotAfter: time.Unix(c.NotAfter, 0).UTC(),
 		Key: w.LeafKey, IssuerUID: uidBytes(c.IssuerUID), SubjectUID: uidBytes(c.SubjectUID), Exts: exts, SigAlg: w.Alg}
 	tbs := t.TBS(w.IssuerKey)
+	if c.VersionField != 0 {
+		// mis-labelled but well-formed DER: the version field is absent (v1) or says v2 although extensions follow
+		n := derx.MustParse(tbs)
+		var parts [][]byte
+		if c.VersionField == 2 {
+			parts = append(parts, derx.Explicit(0, derx.Int64(1)))
+		}
+		for _, k := range n.Children[1:] {
+			parts = append(parts, k.Raw(tbs))
+		}
+		tbs = derx.Seq(parts...)
+	}
 	if c.IssuerUID != nil {
 		patchUID(tbs, 0x81, c.IssuerUID.Unused)
 	}
@@ -805,6 +825,16 @@ func Build(c *Case, realSig bool) *World {
 	w := &World{}
 	w.IssuerKey = keys.Pick(c.IssuerKeyKind, c.IssuerKeyIdx)
 	w.Alg = pickAlg(w.IssuerKey, c.SigAlg)
+	if _, isRSA := w.IssuerKey.Pub.(*rsa.PublicKey); isRSA && c.IssuerNoNull {
+		// rsaEncryption AlgorithmIdentifier without the NULL parameters: not what RFC 3279 prescribes but
+		// well-formed DER that the parser accepts (non-fatal error); issuer_key_hash is over these very bytes
+		n := derx.MustParse(w.IssuerKey.SPKI)
+		k := *w.IssuerKey
+		k.Name += "-nonull"
+		k.SPKI = derx.Seq(derx.Seq(n.Children[0].Children[0].Raw(w.IssuerKey.SPKI)), n.Children[1].Raw(w.IssuerKey.SPKI))
+		w.IssuerKey = &k
+		w.IssuerSPKINoNull = true
+	}
 	w.LeafKey = keys.Pick(c.KeyKind, c.KeyIdx)
 	w.LogKey = keys.Pick(c.LogKeyKind, c.LogKeyIdx)
 	w.IName = nameOf(c.IssuerName)
@@ -1118,6 +1148,10 @@ func (w *World) classify(c *Case, v *harness.Verdict) {
 	if c.PreIssuer && c.IssuerCTEKU {
 		v.Class("final-issuer-has-ct-eku")
 	}
+	if w.IssuerSPKINoNull {
+		v.Class("issuer-spki-rsa-without-null")
+	}
+	v.Class("version-field=" + []string{"v3", "absent", "v2"}[c.VersionField%3])
 	v.Class("issuer-eku=" + []string{"none", "serverAuth", "any", "any+others", "serverAuth+clientAuth"}[c.IssuerEKU%5])
 	if c.PreIssuer && !bytes.Equal(w.IssuerOfP.DER(), w.PISubject.DER()) {
 		v.Class("precert-respells-preissuer-name")
